@@ -15,7 +15,7 @@ import (
 )
 
 func init() {
-	props["C19"] = &propDef{extraPkgs: []string{jsonPatchPkg}, run: runC19, explanation: "Partial (panics raised by constructs in the module's own code and by the reviewed preconditions of third-party callees; not termination, stack depth or arbitrary third-party internals). Decided statically: a closed inventory of every panic-capable construct in the module functions reachable from the untrusted entry points — unchecked type assertions, dereferences (field access, load, pointer-receiver call, pass to a dereferencing callee) of pointers that JSON decoding can leave nil, index / slice expressions, explicit panic, integer division, make with computed size, definite nil dereferences (value tested nil on the path and then used), and interface-keyed map accesses and interface comparisons with possibly unhashable values, and calls with panicking preconditions (ed25519 key sizes; json-patch v4.1.0 Apply, which must run under a deferred recover that becomes an error, receive one operation per call and be preceded by a copy-into-itself check, because the library copy aliases nodes) — each discharged by a dominating guard found by the must-pass-through engine (through helper boundaries) or by a reviewed one-line reason keyed by function and expression. Anything undischarged is a violation naming the construct. The copy-into-itself check reads array-index tokens with the strconv function(s) the library's array containers use. The canonicalizer's table rules (C05) run inside this check; reviewed entries are keyed by the enclosing named function and the expression, with the dominating conditions they need."}
+	props["C19"] = &propDef{extraPkgs: []string{jsonPatchPkg}, run: runC19, explanation: "Partial (panics raised by constructs in the module's own code and by the reviewed preconditions of third-party callees; not termination, stack depth or arbitrary third-party internals). Decided statically: a closed inventory of every panic-capable construct in the module functions reachable from the untrusted entry points — unchecked type assertions, dereferences (field access, load, pointer-receiver call, pass to a dereferencing callee) of pointers that JSON decoding can leave nil, index / slice expressions, explicit panic, integer division, make with computed size, definite nil dereferences (value tested nil on the path and then used), and interface-keyed map accesses and interface comparisons with possibly unhashable values, and calls with panicking preconditions (ed25519 key sizes; json-patch v4.1.0 Apply, which must run under a deferred recover that becomes an error, receive one operation per call and be preceded by a copy-into-itself check, because the library copy aliases nodes) — each discharged by a dominating guard found by the must-pass-through engine (through helper boundaries) or by a reviewed one-line reason keyed by function and expression. Anything undischarged is a violation naming the construct. The copy-into-itself check reads array-index tokens with the strconv function(s) the library's array containers use. The canonicalizer's table rules (C05) run inside this check; reviewed entries are keyed by the enclosing named function and the expression, with the dominating conditions they need. C19.Z (known-nil handed to a dereferencing callee), C19.N on (nil,nil)-helper results; the C05 scanner rules (including the position-loop rule, a necessary condition of termination) run here."}
 }
 
 // reviewedPanicSites: function (short name) -> expression (canonical path / description) -> reason.
@@ -367,6 +367,30 @@ func (k *c19) isReviewed(f *ssa.Function, expr string, site ...ssa.Instruction) 
 		}
 	}
 	if len(es) == 0 {
+		// the construct moved, with its function's tail, into an unexported helper that has exactly one call site: the
+		// entry of the calling function applies, the helper's parameters read as the call's arguments and the
+		// conditions asked for at the call
+		if f.Object() != nil && !f.Object().Exported() && !k.addressTaken(f) {
+			var calls []*ssa.Call
+			for _, g := range k.c.Funcs {
+				if pkgPathOf(g) != pkgPathOf(f) {
+					continue
+				}
+				calls = append(calls, callsTo(g, f)...)
+			}
+			if len(calls) == 1 && calls[0].Parent() != f {
+				cl := calls[0]
+				e2 := expr
+				args := cl.Call.Args
+				for i := len(args) - 1; i >= 0; i-- {
+					e2 = strings.ReplaceAll(e2, fmt.Sprintf("$%d", i), "\x00"+k.c.Path(args[i], nil)+"\x00")
+				}
+				e2 = strings.ReplaceAll(e2, "\x00", "")
+				if why, ok := k.isReviewed(cl.Parent(), e2, cl); ok {
+					return why + " (in " + short(cl.Parent().String()) + ", which hands the value to " + f.Name() + ")", true
+				}
+			}
+		}
 		return "", false
 	}
 	var conds []string
